@@ -25,7 +25,8 @@ RULE = (
     "index-on-index joins) + dtypes. merge_asof: sorted int/datetime keys with duplicates, on/left_on+right_on/index, by, "
     "direction, tolerance, allow_exact_matches; oracle pandas.merge_asof in left order. concat: 2-3 frames with partly "
     "different columns, axis 0 (order == pandas unless interleave_partitions reorders by divisions) and axis 1 (unique "
-    "index, known divisions), join inner/outer, interleave_partitions, ignore_unknown_divisions. "
+    "index, known divisions; 30 % with every input in one partition), join inner/outer, interleave_partitions, "
+    "ignore_unknown_divisions, optionally followed by the selection of the first/last result column. "
     "Non-trivial: both sides have >= 2 partitions, a duplicated key occurs on both sides (many-to-many) and some key is "
     "missing on one side."
 )
@@ -291,7 +292,7 @@ def check_concat(spec):
     pdfs = [b[0] for b in built]
     ddfs = [b[1] for b in built]
     axis, join = op["axis"], op["join"]
-    sig = dict(op="concat", axis=axis, join=join, interleave=bool(op["interleave"]))
+    sig = dict(op="concat", axis=axis, join=join, interleave=bool(op["interleave"]), projected=bool(op.get("project")), empty_input=any(len(p) == 0 for p in pdfs))
     if axis == 1:
         if not all(p.index.is_unique for p in pdfs) or not all(d.known_divisions for d in ddfs):
             raise Reject("axis=1 needs unique index (pandas) and known divisions (dask, documented)")
@@ -301,11 +302,18 @@ def check_concat(spec):
         status, want = reference(pd.concat, pdfs, axis=axis, join=join)
     if status == "err":
         raise Reject(f"pandas rejects: {want}")
+    # optional column selection on the result (a one-step program: the optimizer pushes it into the inputs)
+    proj = None
+    if op.get("project") and len(want.columns):
+        proj = [want.columns[0] if op["project"] == "first" else want.columns[-1]]
+        want = want[proj]
     all_known = all(d.known_divisions for d in ddfs)
     ordered_divs = all_known and all(a.divisions[-1] < b.divisions[0] for a, b in zip(ddfs, ddfs[1:]))
     try:
         with impl("concat", **sig), C.quiet():
             out = dd.concat(ddfs, axis=axis, join=join, interleave_partitions=op["interleave"], ignore_unknown_divisions=op["ignore_unknown"])
+            if proj is not None:
+                out = out[proj]
             got = F.compute(out)
     except Violation as v:
         if axis == 0 and all_known and not ordered_divs and not op["interleave"] and "interleave_partitions=True" in v.message:
@@ -326,6 +334,11 @@ def cls_concat(spec):
     op = spec["op"]
     yield f"axis-{op['axis']}-{op['join']}"
     yield "interleave" if op["interleave"] else "no-interleave"
+    yield "projected" if op.get("project") else "not-projected"
+    if any(f["nrows"] == 0 for f in spec["frames"]):
+        yield "empty-input"
+    if op["axis"] == 1 and all(f["partition"].get("n") == 1 and f["partition"]["how"] == "npartitions" for f in spec["frames"]):
+        yield "axis-1-all-single-partition"
     yield f"nframes-{len(spec['frames'])}"
     for f in spec["frames"]:
         yield "src-" + f["partition"]["how"] + ("-cleared" if f["partition"].get("clear") else "")
@@ -338,17 +351,24 @@ def concat_case(draw):
     ikind = draw(st.sampled_from(["sorted_unique", "range"] if axis == 1 else ["sorted_dups", "sorted_unique", "range", "str"]))
     frames = []
     for _ in range(n):
-        fs = draw(F.frame_spec(min_rows=0 if axis == 0 else 1, max_rows=16, kinds=("int", "float", "str", "key"), min_cols=1, max_cols=3, index_kinds=(ikind,), allow_cuts=axis == 0))
+        fs = draw(F.frame_spec(min_rows=1, max_rows=16, kinds=("int", "float", "str", "key"), min_cols=1, max_cols=3, index_kinds=(ikind,), allow_cuts=axis == 0))
         # partly different column sets: drop a prefix of the generated names
         if len(fs["columns"]) > 1 and draw(st.booleans()):
             fs["columns"] = fs["columns"][1:]
         fs["index"]["name"] = None
+        if axis == 0 and draw(st.integers(0, 39)) == 0:
+            fs["nrows"] = 0  # zero-row input: a separate, rare stratum (~5-7 % of the axis-0 cases; sig flag empty_input)
         if fs["nrows"] and draw(st.integers(0, 9)) < 4:
             fs["partition"] = draw(C.bydivs_partition(fs["nrows"]))
         elif axis == 0 and draw(st.integers(0, 9)) < 2:
             fs["partition"]["clear"] = True
         frames.append(fs)
-    return {"frames": frames, "op": {"axis": axis, "join": draw(st.sampled_from(["outer", "outer", "inner"])), "interleave": draw(st.booleans()), "ignore_unknown": draw(st.booleans())}}
+    if axis == 1 and draw(st.integers(0, 9)) < 3:
+        # every input in ONE partition: dask concatenates them blockwise (ConcatIndexed) instead of aligning divisions
+        for fs in frames:
+            fs["partition"] = {"how": "npartitions", "n": 1, "sort": True}
+    return {"frames": frames, "op": {"axis": axis, "join": draw(st.sampled_from(["outer", "outer", "inner"])), "interleave": draw(st.booleans()), "ignore_unknown": draw(st.booleans()),
+                                     "project": draw(st.sampled_from([None, None, "first", "last"]))}}
 
 
 SUBCHECKS = [
